@@ -35,8 +35,9 @@ BUILD = VERIF / "build" if str(REPO) == "/repo" else VERIF / "build" / ("alt-" +
 COQSRC = VERIF / "coq"
 COQBUILD = BUILD / "coq"
 GEN = COQBUILD / "gen"
-REPLAY = VERIF / "replay"
-EVIDENCE = VERIF / "evidence"
+# evidence/replay of runs against a scratch worktree (VERIF_REPO) never overwrite the registered ones
+REPLAY = VERIF / "replay" if str(REPO) == "/repo" else BUILD / "replay"
+EVIDENCE = VERIF / "evidence" if str(REPO) == "/repo" else BUILD / "evidence"
 KNOWN = VERIF / "known_findings.json"
 PY = "/venv/bin/python"
 NPROC = os.cpu_count() or 4
